@@ -44,8 +44,8 @@ type vfC01Tamper struct {
 	Foreign string // apex of the zone that signs instead (foreign-signer)
 }
 
-var vfC01ZoneEdits = []string{"empty", "corrupt-sigs", "strip-sigs", "strip-dnssec", "expired", "not-yet-valid", "foreign-signer"}
-var vfC01KindEdits = []string{"wildcard-replay", "wildcard-replay", "empty", "flip-rdata", "corrupt-sigs", "strip-sigs", "expired", "drop-denial", "flip-rcode", "strip-ds", "swap-ds", "inject-foreign", "replace-unsigned", "foreign-signer", "sibling-denial"}
+var vfC01ZoneEdits = []string{"empty", "corrupt-sigs", "strip-sigs", "strip-dnssec", "expired", "not-yet-valid", "foreign-signer", "rogue-key", "rogue-key"}
+var vfC01KindEdits = []string{"wildcard-replay", "wildcard-replay", "empty", "flip-rdata", "corrupt-sigs", "strip-sigs", "expired", "drop-denial", "flip-rcode", "strip-ds", "swap-ds", "inject-foreign", "inject-foreign", "inject-foreign", "replace-unsigned", "foreign-signer", "sibling-denial"}
 
 func (tm *vfC01Tamper) decisive() bool { return tm != nil && tm.Kind == "" }
 
@@ -153,6 +153,51 @@ func vfC01Apply(w *vfworld.World, tm *vfC01Tamper, resp *dns.Msg, info vfworld.I
 		}
 	}
 	switch tm.Edit {
+	case "rogue-key":
+		// the attacker adds a key of their own to the zone's DNSKEY RRset, signs that RRset with it, and signs altered
+		// data with it: no DS vouches for the key, and the DNSKEY RRset carries no signature by a key a DS vouches for
+		if z == nil || !z.Signed {
+			break
+		}
+		flags := uint16(257)
+		if tm.Variant%2 == 1 {
+			flags = 256
+		}
+		rogue := vfworld.NewKey(z.Apex, dns.ECDSAP256SHA256, flags, 77)
+		rz := &vfworld.SZone{Zone: z.Zone, Signed: true, KSK: rogue, ZSK: rogue}
+		if info.Kind == "dnskey" {
+			hasKeys := false
+			for _, rr := range resp.Answer {
+				if rr.Header().Rrtype == dns.TypeDNSKEY {
+					hasKeys = true
+				}
+			}
+			if hasKeys {
+				k := dns.Copy(rogue.RR)
+				k.Header().Ttl = resp.Answer[0].Header().Ttl
+				resp.Answer = append([]dns.RR{k}, resp.Answer...)
+				resign(rz, z.Incep, z.Expir)
+				changed = true
+			}
+			break
+		}
+		altered := false
+		for _, rr := range resp.Answer {
+			switch v := rr.(type) {
+			case *dns.A:
+				v.A, altered = net.IPv4(6, 6, 6, 9).To4(), true
+			case *dns.AAAA:
+				v.AAAA, altered = net.ParseIP("2001:db8:bad::9"), true
+			case *dns.TXT:
+				v.Txt, altered = []string{"rogue"}, true
+			case *dns.MX:
+				v.Mx, altered = "rogue.org.", true
+			}
+		}
+		if altered {
+			resign(rz, z.Incep, z.Expir)
+			changed = true
+		}
 	case "wildcard-replay":
 		// RFC 4035 §5.3.4 replay: answer for an existing name with the sibling wildcard's RRset and its genuine
 		// signature, padded (variant-wise) with a forged denial of the name: none / unsigned NSEC owned by the parent
@@ -307,6 +352,15 @@ func vfC01Apply(w *vfworld.World, tm *vfC01Tamper, resp *dns.Msg, info vfworld.I
 	case "inject-foreign":
 		evil := &dns.A{Hdr: dns.RR_Header{Name: "t.org.", Rrtype: dns.TypeA, Class: dns.ClassINET, Ttl: 3600}, A: net.IPv4(6, 6, 6, 6).To4()}
 		evil2 := &dns.A{Hdr: dns.RR_Header{Name: resp.Question[0].Name, Rrtype: dns.TypeA, Class: dns.ClassINET, Ttl: 3600}, A: net.IPv4(6, 6, 6, 7).To4()}
+		if tm.Variant%2 == 1 {
+			// padding in the authority section only: an unsigned foreign RRset, and an unsigned in-zone one
+			resp.Ns = append(resp.Ns, dns.Copy(evil))
+			if z != nil && tm.Variant%4 == 1 {
+				resp.Ns = append(resp.Ns, &dns.A{Hdr: dns.RR_Header{Name: "pad." + z.Apex, Rrtype: dns.TypeA, Class: dns.ClassINET, Ttl: 3600}, A: net.IPv4(6, 6, 6, 5).To4()})
+			}
+			changed = true
+			break
+		}
 		resp.Answer = append(resp.Answer, evil)
 		resp.Ns = append(resp.Ns, dns.Copy(evil))
 		resp.Extra = append([]dns.RR{dns.Copy(evil)}, resp.Extra...)
@@ -701,6 +755,12 @@ func vfC01Gen(rt *rapid.T) *vfC01Case {
 	if c.Tamper != nil {
 		c.Tamper.Variant = rapid.IntRange(0, 3).Draw(rt, "tvariant")
 		c.Tamper.DropDS = rapid.IntRange(0, 4).Draw(rt, "dropds") == 0
+		if c.Tamper.Edit == "inject-foreign" {
+			// padding of every section, or of the authority section alone (foreign RRset, with or without an unsigned
+			// in-zone one) - mostly behind denials, whose authority section is what the client is meant to believe
+			c.Tamper.Kind = rapid.SampledFrom([]string{"nodata", "nodata", "nxdomain", "nxdomain", "answer", "wildcard", "referral"}).Draw(rt, "tkind3")
+			c.Tamper.Variant = rapid.SampledFrom([]int{0, 1, 3, 3}).Draw(rt, "tvariant3")
+		}
 		if c.Tamper.Edit == "wildcard-replay" {
 			c.Tamper.Kind = rapid.SampledFrom([]string{"answer", "answer", "cname"}).Draw(rt, "tkind2")
 		}
@@ -866,6 +926,22 @@ func TestVerifC01Debug(t *testing.T) {
 	c := &vfC01Case{W: w, QMin: qm, Tamper: &vfC01Tamper{Zone: "example.test.", Kind: "wildcard", Edit: "empty"}, Steps: []vfC01Step{
 		{Name: "ab.example.test.", Qtype: dns.TypeA, DO: true, EDNS: true, AD: true, Proto: "udp", ClientOctet4: 1},
 	}}
+	if os.Getenv("VERIF_ROGUE") != "" {
+		w = vfworld.Build([]vfworld.ZoneSpec{
+			{Apex: ".", Signed: true},
+			{Apex: "test.", Signed: true},
+			{Apex: "example.test.", Signed: true, Split: os.Getenv("VERIF_ROGUE") == "split", Owners: map[string][]uint16{"b.example.test.": {dns.TypeA}}},
+		})
+		c = &vfC01Case{W: w, QMin: qm, Tamper: &vfC01Tamper{Zone: "example.test.", Edit: "rogue-key"}, Steps: []vfC01Step{
+			{Name: "b.example.test.", Qtype: dns.TypeA, DO: true, EDNS: true, AD: true, Proto: "udp", ClientOctet4: 1},
+		}}
+	}
+	if k := os.Getenv("VERIF_INJECT"); k != "" {
+		c = &vfC01Case{W: w, QMin: qm, Tamper: &vfC01Tamper{Zone: "example.test.", Kind: k, Edit: "inject-foreign", Variant: 3}, Steps: []vfC01Step{
+			{Name: "nx.b.example.test.", Qtype: dns.TypeA, DO: true, EDNS: true, AD: true, Proto: "udp", ClientOctet4: 1},
+			{Name: "b.example.test.", Qtype: dns.TypeTXT, DO: true, EDNS: true, AD: true, Proto: "udp", ClientOctet4: 1},
+		}}
+	}
 	if os.Getenv("VERIF_ESCDOT") != "" {
 		w = vfworld.Build([]vfworld.ZoneSpec{
 			{Apex: ".", Signed: true},
